@@ -53,7 +53,7 @@ SysCr3bp ==
         m \in RK, fw \in {1, -1}, st \in {0, 4, 40} }
     \cup { C("system", "symplectic", 4, "cr3bp", "dir", 1, "none", "asc", 5, 1000, 0, FALSE) }
 
-GridShapes == {<<"asc", 5>>, <<"desc", 5>>, <<"const", 4>>, <<"nonmono", 4>>, <<"asc", 2>>, <<"desc", 2>>}
+GridShapes == {<<"asc", 5>>, <<"desc", 5>>, <<"const", 4>>, <<"nonmono", 4>>, <<"asc", 2>>, <<"desc", 2>>, <<"ascnu", 5>>, <<"descnu", 5>>}
 
 IntRot ==
     { C("integrate", m[1], m[2], "rot", w[1], w[2], "none", g[1], g[2], ModOf(m[1]), 0, TRUE) :
